@@ -32,7 +32,7 @@ sys.dont_write_bytecode = True
 _N = [0]
 
 
-def ana_module_text(analyses, select):
+def ana_module_text(analyses, select, pre_select=None):
     out = [
         "from dynapyt.analyses.BaseAnalysis import BaseAnalysis",
         "from dynapyt.instrument.filters import only, ignore",
@@ -42,6 +42,8 @@ def ana_module_text(analyses, select):
     specs = list(analyses)
     if select is not None:
         specs = specs + [{"cls": "VSelect", "hooks": {h: None for h in select}}]
+    if pre_select:
+        specs = specs + [{"cls": "VPre", "hooks": {h: None for h in pre_select}}]
     done = set()
     for a in specs:
         if a["cls"] in done:
@@ -161,7 +163,7 @@ def _run_case(case):
             return res
         # ---- analyses module + hook selection, the official way
         ananame = "vana_%d_%d" % (os.getpid(), _N[0])
-        (casedir / (ananame + ".py")).write_text(ana_module_text(case["analyses"], case.get("select")))
+        (casedir / (ananame + ".py")).write_text(ana_module_text(case["analyses"], case.get("select"), case.get("pre_select")))
         sys.path.insert(0, str(casedir))
         importlib.invalidate_caches()
         vrec.reset()
@@ -170,8 +172,23 @@ def _run_case(case):
         sel_classes = classes + (["%s.VSelect" % ananame] if case.get("select") is not None else [])
         hooks = get_hooks_from_analysis(sel_classes)
         res["selected"] = sorted(hooks)
-        # ---- instrument
+        # ---- optional history: a first instrumentation with other hooks, then restore the sources (the id maps stay)
         buf = io.StringIO()
+        if case.get("pre_select"):
+            pre_hooks = get_hooks_from_analysis(["%s.VPre" % ananame])
+            first_maps = {}
+            for rel in case.get("instrument", sorted(case["files"])):
+                with contextlib.redirect_stdout(buf):
+                    instrument_file(str(casedir / rel), pre_hooks)
+                j = casedir / (rel[:-3] + "-dynapyt.json")
+                if j.exists():
+                    first_maps[rel] = json.loads(j.read_text())
+                o = casedir / (rel + ".orig")
+                if o.exists():
+                    shutil.copyfile(o, casedir / rel)
+                    o.unlink()
+            res["first_idmaps"] = first_maps
+        # ---- instrument
         rets = {}
         for rel in case.get("instrument", sorted(case["files"])):
             with contextlib.redirect_stdout(buf):
